@@ -456,6 +456,7 @@ func (c *SizedLRU) performQueuedEvictions() {
 		c.verifGate("evict")
 		c.onEvict(kv.key, kv.value)
 		c.verifEvict("EvictStart", kv)
+		c.verifGate("evict.unlinked")
 		c.queuedEvictionsSize.Add(-kv.value.sizeOnDisk)
 		c.verifEvict("EvictDone", kv)
 	}
